@@ -883,6 +883,9 @@ func presenceObject(c Case) (kmip.Object, bool) {
 		kb.KeyValue = &kmip.KeyValue{Plain: &kmip.PlainKeyValue{KeyMaterial: valued(t, []byte{})}}
 	case "short-value":
 		kb.KeyValue = &kmip.KeyValue{Plain: &kmip.PlainKeyValue{KeyMaterial: valued(t, []byte{2})}} // also the prefix of a compressed point
+	case "wrapped-bare":
+		wb := []byte{9, 8, 7, 6, 5, 4, 3, 2, 1, 0, 1, 2, 3, 4, 5, 6}
+		kb.KeyValue = &kmip.KeyValue{Wrapped: &wb}
 	case "wrapped":
 		wb := []byte{9, 8, 7, 6, 5, 4, 3, 2, 1, 0, 1, 2, 3, 4, 5, 6, 7, 8, 9, 0, 1, 2, 3, 4}
 		kb.KeyValue = &kmip.KeyValue{Wrapped: &wb}
